@@ -1,7 +1,8 @@
 (* C02 — serial queues run one item at a time, in submission order.
-   PARTIAL: proved are the mechanisms that make it hold, for all 2^64 state words of the generated bodies; the
-   global exclusion / FIFO statement over all interleavings is not proved (DESIGN.md §6.0) and is decided on the
-   implementation by the stress oracle (overlap counters, per-producer order, every submission API by itself). *)
+   THIS FILE holds only word-level mechanisms, for all 2^64 state words of the generated bodies.  The exclusion / FIFO /
+   real-time order theorems over all interleavings are in Properties_C02_slane.v (serial lane, async),
+   Properties_C02_sync.v (order across asynchronous and synchronous submissions) and Properties_C02_mainq.v (main
+   queue); the rest is decided on the implementation by the stress oracle. *)
 From Coq Require Import ZArith Bool List.
 From Verif Require Import Word Gen_consts Gen_dqstate Suspend_proofs Lane_iface.
 Import ListNotations.
